@@ -891,6 +891,12 @@ func runC06(r *Report, tier string) {
 		o.check(ok, why, why)
 	}
 	r.floor("R06.2", len(cyc), 2, "call-graph cycles in scope")
+	// the pointer arms of the countersignature builder (`*t`) and the methods
+	// called on decoded countersignature elements rely on decoded header
+	// values under labels 7 / 11 holding no nil pointer: the predicate that
+	// admits them (shared with C05 / C13)
+	r.rule("R05.7", "(shared) every decoded countersignature header value is a non-nil pointer or a non-empty list without nil elements, so follow-up operations that dereference the elements cannot fault.")
+	checkCountersigValuePredicate(r, "R05.7")
 	// MaxNestedLevels not raised on any decode mode
 	for _, mc := range P.modeConfigs() {
 		if mc.enc {
